@@ -17,6 +17,10 @@ pub mod spec_blake_core;
 pub mod blake_core;
 pub mod blake_mode;
 pub mod groestl_mode;
+#[path = "../spec/groestl.rs"]
+pub mod spec_groestl;
+#[cfg(not(feature = "no_simd"))]
+pub mod groestl_core;
 pub mod jh_mode;
 pub mod jh_core;
 pub mod skein_mode;
